@@ -356,6 +356,13 @@ class Gen:
             self.coherent(nq) if k0 < 0.48 else self.random_case(nq)
         qs = [t for t in toks if is_query(t)]
         toks = [t for t in toks if not is_query(t)]
+        # an operation callback that answers NODATA / NOMETH itself (seeded C09-a2: such a status must be
+        # returned, not treated like a failed walk and retried with the next alternative).  Decided by a
+        # hash of the case so that the main random stream is not disturbed.
+        import zlib
+        h = zlib.crc32(" ".join(toks).encode())
+        if h % 8 == 0:
+            toks = [("O:%s" % sh((5, 6, 6, 5)[(h >> 8) % 4])) if t.startswith("O:") else t for t in toks]
         k = r.random()
         if k < 0.10:
             # a get-page callback that serves one address space by converting the requested
